@@ -914,7 +914,7 @@ def registry2(R):
     R["GenomeContext.from_dict(d) methods"] = (lambda d, names: (lambda gc: (snap(gc.chrom_sizes, result=True), list(gc.chromosome_order()) if hasattr(gc, "chromosome_order") else None,
                                                  snap(gc.with_ignored_added(names)), snap(gc.chrom_sizes, result=True)))(
         __import__("bionumpy.genomic_data.genome_context", fromlist=["x"]).GenomeContext.from_dict(d)), ["sizes_dict+names"])
-    R["genome_context.is_included/mask_data"] = (lambda g, t: (lambda gc: (gc.is_included(t.chromosome), snap(gc.mask_data(t))))(g.get_genome_context()), ["genome_u+intervals"])
+    R["genome_context.mask_data"] = (lambda g, t: snap(g.get_genome_context().mask_data(t)), ["genome_u+intervals"])
     R["Genome.from_dict(d, filter/sort kwargs)"] = (lambda d: (snap(bnp.Genome.from_dict(d, filter_function=None)) if "filter_function" in __import__("inspect").signature(bnp.Genome.from_dict).parameters else None,
                                                       snap(bnp.Genome.from_dict(d, sort_names=True)) if "sort_names" in __import__("inspect").signature(bnp.Genome.from_dict).parameters else None), ["sizes_dict_u"])
     R["chunk.program"] = (lambda ch, prog: run_chunk_program(ch, prog), ["chunk+program"])
